@@ -387,6 +387,57 @@ def desugar_combinators(raws, reference):
                     direct.add(name)
                     raw.setdefault("desugared", []).append(["call", name])
                 continue
+            # `x.filter(|v| p(v))`: `match x { Some(v) if p(&v) => Some(v), _ => None }`
+            if name in ("std::option::Option::<T>::filter", "core::option::Option::<T>::filter") and len(t["args"]) == 2:
+                ca = t["args"][1]
+                cp = ca.get("m") or ca.get("c")
+                recv = t["args"][0].get("m") or t["args"][0].get("c")
+                d = _single_def(raw, cp["l"]) if cp is not None and not cp["pr"] else None
+                cpath = d["r"].get("path") if d is not None and d.get("r", {}).get("k") == "agg" and d["r"].get("ak") == "closure" else None
+                cl = raws.get(cpath) if cpath else None
+                if cl is not None and cpath in fresh and cl["kind"] == "Closure" and cl["arg_count"] == 2 and recv is not None and not recv["pr"]:
+                    line = (t.get("span") or {}).get("lo") or 0
+                    span = t.get("span")
+                    locs = raw["locals"]
+
+                    def newlocal2(ty):
+                        locs.append({"ty": ty, "mut": True})
+                        return len(locs) - 1
+                    disc = newlocal2("isize")
+                    res = newlocal2("bool")
+                    payref = newlocal2(cl["locals"][2]["ty"])
+                    blocks = raw["blocks"]
+                    b_on, b_test, b_keep, b_none, b_unr = (len(blocks) + k_ for k_ in range(5))
+                    cont, dest = t["target"], t["dest"]
+                    on_stmts = []
+                    env_ty = cl["locals"][1]["ty"]
+                    if env_ty.startswith("&"):
+                        env = newlocal2(env_ty)
+                        on_stmts.append({"k": "assign", "p": {"l": env, "pr": []}, "line": line,
+                                         "r": {"k": "ref", "bk": "mut" if env_ty.startswith("&mut") else "shared", "p": {"l": cp["l"], "pr": []}}})
+                        cargs = [{"m": {"l": env, "pr": []}}]
+                    else:
+                        cargs = [{"m": {"l": cp["l"], "pr": []}}]
+                    on_stmts.append({"k": "assign", "p": {"l": payref, "pr": []}, "line": line,
+                                     "r": {"k": "ref", "bk": "shared", "p": {"l": recv["l"], "pr": [{"dc": "Some", "vi": 1}, {"f": 0, "n": "0"}]}}})
+                    cargs.append({"m": {"l": payref, "pr": []}})
+                    blocks.append({"s": on_stmts, "t": {"k": "call", "decl": cpath, "res": cpath, "res_kind": "Item", "args": cargs,
+                                                        "dest": {"l": res, "pr": []}, "target": b_test, "span": span}})
+                    blocks.append({"s": [], "t": {"k": "switch", "discr": {"m": {"l": res, "pr": []}}, "ty": "bool", "arms": [[0, b_none]], "otherwise": b_keep, "span": span}})
+                    blocks.append({"s": [{"k": "assign", "p": dest, "r": {"k": "use", "o": {"m": {"l": recv["l"], "pr": []}}}, "line": line}],
+                                   "t": {"k": "goto", "target": cont, "span": span}})
+                    blocks.append({"s": [{"k": "assign", "p": dest, "line": line,
+                                          "r": {"k": "agg", "ak": "adt", "path": _OPT, "variant": "None", "vi": 0, "fields": [], "ops": []}}],
+                                   "t": {"k": "goto", "target": cont, "span": span}})
+                    blocks.append({"s": [], "t": {"k": "unreachable", "span": span}})
+                    pre = blocks[bi]
+                    pre["s"].append({"k": "assign", "p": {"l": disc, "pr": []}, "line": line,
+                                     "r": {"k": "discr", "p": {"l": recv["l"], "pr": []}, "ty": locs[recv["l"]]["ty"], "variants": _VARIANTS[_OPT]}})
+                    pre["t"] = {"k": "switch", "discr": {"m": {"l": disc, "pr": []}}, "ty": "isize", "arms": [[0, b_none], [1, b_on]], "otherwise": b_unr,
+                                "span": span, "desugared": name}
+                    direct.add(cpath)
+                    raw.setdefault("desugared", []).append([name, cpath])
+                    continue
             spec = None
             for suf, sp in _COMBINATORS.items():
                 if name.endswith(suf) and name[:-len(suf)] in ("std::", "core::"):
